@@ -58,9 +58,72 @@ type ModelSpec struct {
 	Tags     [4]int `json:"tags"`              // tag code per data field F0..F3
 	TimeKind int    `json:"time_kind"`         // 0: Made/Touched int64 with autoCreateTime/autoUpdateTime tags; 1: CreatedAt/UpdatedAt time.Time by naming convention
 	CTag     bool   `json:"ctime_create_only"` // create-time field additionally tagged <-:create
+	// Shape of the model type (see shape* constants)
+	Shape int `json:"shape,omitempty"`
+	// PatchTags (shapePatch): tags of the fields of the separate "patch"
+	// struct type whose values are handed to Updates/UpdateColumns
+	PatchTags [4]int `json:"patch_tags,omitempty"`
 }
 
-func (m ModelSpec) perm(i int) perm { return tagPerm[m.Tags[i]] }
+const (
+	shapeFlat = iota
+	// an untagged Base{F0..F3} is embedded (anonymous) and the model re-declares
+	// every tagged field (same Go name, same column) with its tag; the outer
+	// (shortest path) field is the effective one. Base comes before the
+	// re-declared fields ...
+	shapeOverrideBaseFirst
+	// ... or after them
+	shapeOverrideBaseLast
+	// flat model plus `Aud struct{Fi} gorm:"embedded;embeddedPrefix:aud_"`
+	// whose only field has the Go name of the (first) tagged outer field
+	shapePrefixShadow
+	// flat model; update values are given as a different struct type
+	// P{F0..F3} carrying PatchTags
+	shapePatch
+)
+
+var shapeName = []string{"flat", "override(base first)", "override(base last)", "prefix-shadow", "patch-struct"}
+
+// Base is embedded by the override shapes.
+type Base struct {
+	F0 string
+	F1 int64
+	F2 string
+	F3 int64
+}
+
+// Aud0 / Aud1 are embedded with a column prefix by shapePrefixShadow.
+type Aud0 struct{ F0 string }
+type Aud1 struct{ F1 int64 }
+
+// modelPerm: permission of the model's own (effective) field
+func (m ModelSpec) modelPerm(i int) perm { return tagPerm[m.Tags[i]] }
+
+// perm: effective permission of a write to column fi through the programs
+// enumerated for the model: for shapePatch both the model's field and the
+// patch struct's field must allow it.
+func (m ModelSpec) perm(i int) perm {
+	p := tagPerm[m.Tags[i]]
+	if m.Shape == shapePatch {
+		q := tagPerm[m.PatchTags[i]]
+		return perm{C: p.C && q.C, U: p.U && q.U, Ign: p.Ign || q.Ign}
+	}
+	return p
+}
+
+// shadow: index of the data field whose Go name is shadowed by Aud.Fi
+// (shapePrefixShadow), else -1
+func (m ModelSpec) shadow() int {
+	if m.Shape != shapePrefixShadow {
+		return -1
+	}
+	for i := 0; i < 2; i++ {
+		if m.Tags[i] != tgNone {
+			return i
+		}
+	}
+	return 0
+}
 
 // logical columns
 const (
@@ -113,7 +176,7 @@ func (m ModelSpec) colName(l int) string {
 }
 
 // physical columns of table t (always all of them, hand-written DDL)
-var physCols = []string{"rk", "id", "f0", "f1", "f2", "f3", "made", "touched", "created_at", "updated_at"}
+var physCols = []string{"rk", "id", "f0", "f1", "f2", "f3", "made", "touched", "created_at", "updated_at", "aud_f0", "aud_f1"}
 
 func physIndex(col string) int {
 	for i, c := range physCols {
@@ -131,20 +194,21 @@ const tableDDL = `CREATE TABLE t (
  rk integer,
  f0 text, f1 integer, f2 text, f3 integer,
  made integer, touched integer,
- created_at datetime, updated_at datetime)`
+ created_at datetime, updated_at datetime,
+ aud_f0 text, aud_f1 integer)`
 
 var seedTime = time.Date(2001, 1, 1, 0, 0, 0, 0, time.UTC)
 
 // the three statements that restore the pristine table
 func seedStmts() []string {
 	var sb strings.Builder
-	sb.WriteString("INSERT INTO t (id,rk,f0,f1,f2,f3,made,touched,created_at,updated_at) VALUES ")
+	sb.WriteString("INSERT INTO t (id,rk,f0,f1,f2,f3,made,touched,created_at,updated_at,aud_f0,aud_f1) VALUES ")
 	for r := 1; r <= 3; r++ {
 		if r > 1 {
 			sb.WriteByte(',')
 		}
-		fmt.Fprintf(&sb, "(%d,%d,'a%d',%d,'b%d',%d,%d,%d,'2001-01-0%d 00:00:00+00:00','2001-02-0%d 00:00:00+00:00')",
-			r, r, r, 10+r, r, 20+r, 100+r, 200+r, r, r)
+		fmt.Fprintf(&sb, "(%d,%d,'a%d',%d,'b%d',%d,%d,%d,'2001-01-0%d 00:00:00+00:00','2001-02-0%d 00:00:00+00:00','u%d',%d)",
+			r, r, r, 10+r, r, 20+r, 100+r, 200+r, r, r, r, 30+r)
 	}
 	return []string{"DELETE FROM t", "DELETE FROM sqlite_sequence WHERE name='t'", sb.String()}
 }
@@ -187,12 +251,30 @@ func (m ModelSpec) Type() reflect.Type {
 		return t
 	}
 	fields := []reflect.StructField{{Name: "ID", Type: reflect.TypeOf(uint(0))}}
+	override := m.Shape == shapeOverrideBaseFirst || m.Shape == shapeOverrideBaseLast
+	base := reflect.StructField{Name: "Base", Type: reflect.TypeOf(Base{}), Anonymous: true}
+	if m.Shape == shapeOverrideBaseFirst {
+		fields = append(fields, base)
+	}
 	for i := 0; i < 4; i++ {
+		if override && m.Tags[i] == tgNone {
+			continue // comes from Base
+		}
 		ft := reflect.TypeOf(int64(0))
 		if dataIsString[i] {
 			ft = reflect.TypeOf("")
 		}
 		fields = append(fields, reflect.StructField{Name: fmt.Sprintf("F%d", i), Type: ft, Tag: gormTag(tagText[m.Tags[i]])})
+	}
+	if m.Shape == shapeOverrideBaseLast {
+		fields = append(fields, base)
+	}
+	if sh := m.shadow(); sh >= 0 {
+		at := reflect.TypeOf(Aud0{})
+		if sh == 1 {
+			at = reflect.TypeOf(Aud1{})
+		}
+		fields = append(fields, reflect.StructField{Name: "Aud", Type: at, Tag: gormTag("embedded", "embeddedPrefix:aud_")})
 	}
 	ctag := ""
 	if m.CTag {
@@ -212,10 +294,30 @@ func (m ModelSpec) Type() reflect.Type {
 	return t
 }
 
+// PatchType: the separate value type of shapePatch
+func (m ModelSpec) PatchType() reflect.Type {
+	var fields []reflect.StructField
+	for i := 0; i < 4; i++ {
+		ft := reflect.TypeOf(int64(0))
+		if dataIsString[i] {
+			ft = reflect.TypeOf("")
+		}
+		fields = append(fields, reflect.StructField{Name: fmt.Sprintf("F%d", i), Type: ft, Tag: gormTag(tagText[m.PatchTags[i]])})
+	}
+	return reflect.StructOf(fields)
+}
+
 func (m ModelSpec) String() string {
 	var sb strings.Builder
 	sb.WriteString("struct{ID uint")
+	override := m.Shape == shapeOverrideBaseFirst || m.Shape == shapeOverrideBaseLast
+	if m.Shape == shapeOverrideBaseFirst {
+		sb.WriteString("; Base /*embedded struct{F0 string;F1 int64;F2 string;F3 int64}*/")
+	}
 	for i := 0; i < 4; i++ {
+		if override && m.Tags[i] == tgNone {
+			continue
+		}
 		ty := "int64"
 		if dataIsString[i] {
 			ty = "string"
@@ -225,6 +327,12 @@ func (m ModelSpec) String() string {
 			fmt.Fprintf(&sb, " `%s`", tagText[m.Tags[i]])
 		}
 	}
+	if m.Shape == shapeOverrideBaseLast {
+		sb.WriteString("; Base /*embedded struct{F0 string;F1 int64;F2 string;F3 int64}*/")
+	}
+	if sh := m.shadow(); sh >= 0 {
+		fmt.Fprintf(&sb, "; Aud struct{F%d} `embedded;embeddedPrefix:aud_`", sh)
+	}
 	c := ""
 	if m.CTag {
 		c = " `<-:create`"
@@ -233,6 +341,17 @@ func (m ModelSpec) String() string {
 		fmt.Fprintf(&sb, "; CreatedAt time.Time%s; UpdatedAt time.Time}", c)
 	} else {
 		fmt.Fprintf(&sb, "; Made int64 `autoCreateTime`%s; Touched int64 `autoUpdateTime`}", c)
+	}
+	if m.Shape == shapePatch {
+		sb.WriteString("  P = struct{")
+		for i := 0; i < 4; i++ {
+			fmt.Fprintf(&sb, "F%d", i)
+			if m.PatchTags[i] != tgNone {
+				fmt.Fprintf(&sb, " `%s`", tagText[m.PatchTags[i]])
+			}
+			sb.WriteString("; ")
+		}
+		sb.WriteString("}")
 	}
 	return sb.String()
 }
